@@ -42,6 +42,7 @@ type report struct {
 	Fsyncs        int                      `json:"fsyncs"`
 	Files         int                      `json:"files_inspected"`
 	GzTruncated   int                      `json:"gzip_files_with_torn_tail"`
+	TornMembers   int                      `json:"gzip_members_left_torn_by_a_dead_process"`
 	Stops         map[string]int           `json:"stops"`
 	ExitCodes     map[string]int           `json:"exit_codes"`
 	KillPoints    int                      `json:"kill_point_runs"`
@@ -133,6 +134,7 @@ func main() {
 		}
 		if stop != "drainterm" && rng.Intn(5) < 2 {
 			sc.Restart = []string{"term", "kill"}[rng.Intn(2)]
+			sc.Post = 1 + sc.NMsgs/3
 		}
 		return sc
 	}
@@ -193,6 +195,32 @@ func main() {
 			scs = append(scs, mk(o, stop))
 		}
 	}
+	// killed with a written-but-unsynced batch, restarted inside the same file-name window, more traffic: the
+	// Kill-at-w_nl / Restart / open-existing-file behaviours of FileLogger.tla (FileLogger_restart*.cfg), for every
+	// option combination without rotate-interval (an interval always forces a fresh file)
+	for r := 0; r < rounds; r++ {
+		for _, cb := range combos {
+			if cb.ri != 0 {
+				continue
+			}
+			o := scenOpts{Gzip: cb.g, WorkDir: cb.w, SkipEmpty: cb.s, DateFmt: "%Y-%m-%d_%H", SyncMs: 1000, MaxInFlight: 200}
+			if cb.rs != 0 {
+				o.RotSize = int64(600 + rng.Intn(600))
+			}
+			sc := mk(o, "inject")
+			sc.Hups, sc.Foreign = nil, 0
+			sc.Pc = "w_nl"
+			if o.Gzip {
+				sc.Inject = fmt.Sprintf("gzhdr:%d", 1+rng.Intn(2))
+			} else {
+				sc.Inject = fmt.Sprintf("write:%d", 1+2*rng.Intn(4)) // odd: body written, newline not yet
+			}
+			sc.Restart = "term"
+			sc.Post = 3 + rng.Intn(8)
+			sc.Backlog = sc.NMsgs - sc.Post // everything of the first phase is there at once: one big pending batch
+			scs = append(scs, sc)
+		}
+	}
 	if len(kps) > 0 {
 		sort.Slice(kps, func(a, b int) bool { return fmt.Sprint(kps[a]) < fmt.Sprint(kps[b]) })
 		rng.Shuffle(len(kps), func(a, b int) { kps[a], kps[b] = kps[b], kps[a] })
@@ -248,6 +276,7 @@ func main() {
 				return
 			}
 			dir := filepath.Join(*scratch, fmt.Sprintf("sc%d", scs[i].ID))
+			os.RemoveAll(dir) // never run over what an earlier invocation left in the same scratch directory
 			os.MkdirAll(dir, 0755)
 			results[i] = runScenario(dir, scs[i], *bin)
 			if len(results[i].Violations) == 0 && !(*keep && results[i].Inconclusive != "") {
@@ -278,6 +307,7 @@ func main() {
 		R.Fsyncs += r.Fsyncs
 		R.Files += r.Files
 		R.GzTruncated += r.GzTruncated
+		R.TornMembers += r.TornMembers
 		if r.Sc.Stop == "inject" {
 			R.KillPoints++
 			if r.InjectFired {
